@@ -4,6 +4,7 @@
   `BA/Model/Evm/Word.lean`) equals the Yellow Paper / EIP definition (`xSpec`) on all 2^256-sized operands.
 -/
 import BA.Lemmas.Evm
+import BA.Lemmas.EvmInterp
 
 namespace BA.Evm
 
@@ -530,5 +531,276 @@ theorem exp_impl_eq_spec (a b : W) : expImpl a b = expSpec a b := by
 theorem expSpecExec_eq_spec (a b : W) : expSpecExec a b = expSpec a b := by
   unfold expSpecExec expSpec ofN
   rw [powMod_eq]
+
+/-! ### interpreter steps (`step_matches_spec` family) -/
+
+/-- truncated PUSH rule: the immediate of PUSHn is the next n code bytes, bytes beyond the end of the code
+    read as zero -/
+theorem pushImm_spec (code : Array UInt8) (pc n : Nat) :
+    pushImm code pc n = bytesToWord ((List.range n).map (fun j => code.getD (pc + 1 + j) 0)) := by
+  unfold pushImm
+  rw [padRight_slice]
+
+
+/-- CALLDATALOAD as coded (bounds test, copy of at most 32 bytes into a zeroed buffer) equals the Yellow Paper
+    definition: byte j of the word is data[idx + j], zero beyond the end — for every index up to 2^256−1. -/
+theorem calldataload_impl_eq_spec (cd : Array UInt8) (idx : W) :
+    calldataloadImpl cd idx = calldataloadSpec cd idx := by
+  unfold calldataloadImpl calldataloadSpec
+  by_cases h : idx.toNat < cd.size
+  · simp only [h, if_true]
+    have hk : min (idx.toNat + 32) cd.size - idx.toNat = min 32 (cd.size - idx.toNat) := by omega
+    rw [hk]
+    congr 1
+    -- slicing min(32, rest) bytes and padding to 32 = slicing 32 and padding
+    rw [← padRight_slice]
+    unfold padRight
+    rw [slice_getElem, slice_getElem]
+    have e : min (min 32 (cd.size - idx.toNat)) (cd.size - idx.toNat) = min 32 (cd.size - idx.toNat) := by omega
+    rw [e]
+  · simp only [h, if_false]
+    symm
+    apply bytesToWord_zeros
+    intro b hb
+    rw [List.mem_map] at hb
+    obtain ⟨j, _, rfl⟩ := hb
+    have : ¬ idx.toNat + j < cd.size := by omega
+    simp [this]
+
+
+/-- the opcode byte at the program counter -/
+def opAt (env : Env) (s : St) : Nat := (env.code.getD s.pc 0).toNat
+
+/-- PUSH0–PUSH32: overflow at 1024 entries, otherwise the immediate is pushed and pc advances past it. -/
+theorem step_push (env : Env) (s : St) (n : Nat) (hn : n ≤ 32) (hop : opAt env s = 0x5f + n) :
+    step env s =
+      if s.stack.length ≥ 1024 then .error .stackOverflow
+      else .ok { s with stack := pushImm env.code s.pc n :: s.stack, pc := s.pc + 1 + n } := by
+  unfold opAt at hop
+  unfold step
+  have h1 : 0x5f ≤ (env.code.getD s.pc 0).toNat ∧ (env.code.getD s.pc 0).toNat ≤ 0x7f := by omega
+  have h2 : (env.code.getD s.pc 0).toNat - 0x5f = n := by omega
+  simp only [h1, and_self, if_true, h2, stepPush, pushChecked, stackLimit]
+  by_cases h : s.stack.length ≥ 1024 <;> simp [h]
+
+/-- DUPn: overflow is tested before underflow; otherwise entry n (1 = top) is copied onto the stack. -/
+theorem step_dup (env : Env) (s : St) (n : Nat) (h1n : 1 ≤ n) (hn : n ≤ 16) (hop : opAt env s = 0x7f + n) :
+    step env s =
+      if s.stack.length ≥ 1024 then .error .stackOverflow
+      else match s.stack[n - 1]? with
+        | none => .error .stackUnderflow
+        | some v => .ok { s with stack := v :: s.stack, pc := s.pc + 1 } := by
+  unfold opAt at hop
+  unfold step
+  have h0 : ¬ (0x5f ≤ (env.code.getD s.pc 0).toNat ∧ (env.code.getD s.pc 0).toNat ≤ 0x7f) := by omega
+  have h1 : 0x80 ≤ (env.code.getD s.pc 0).toNat ∧ (env.code.getD s.pc 0).toNat ≤ 0x8f := by omega
+  have h2 : (env.code.getD s.pc 0).toNat - 0x7f = n := by omega
+  simp only [h0, h1, and_self, if_true, if_false, h2, stepDup, dupN, stackLimit]
+  by_cases h : s.stack.length ≥ 1024
+  · simp [h]
+  · simp only [h, if_false]
+    cases s.stack[n - 1]? <;> rfl
+
+/-- SWAPn: the top and the entry n below it are exchanged; underflow when fewer than n+1 entries. -/
+theorem step_swap (env : Env) (s : St) (n : Nat) (h1n : 1 ≤ n) (hn : n ≤ 16) (hop : opAt env s = 0x8f + n) :
+    step env s =
+      match s.stack, s.stack[n]? with
+      | top :: _, some v => .ok { s with stack := (s.stack.set n top).set 0 v, pc := s.pc + 1 }
+      | _, _ => .error .stackUnderflow := by
+  unfold opAt at hop
+  unfold step
+  have h0 : ¬ (0x5f ≤ (env.code.getD s.pc 0).toNat ∧ (env.code.getD s.pc 0).toNat ≤ 0x7f) := by omega
+  have h1 : ¬ (0x80 ≤ (env.code.getD s.pc 0).toNat ∧ (env.code.getD s.pc 0).toNat ≤ 0x8f) := by omega
+  have h3 : 0x90 ≤ (env.code.getD s.pc 0).toNat ∧ (env.code.getD s.pc 0).toNat ≤ 0x9f := by omega
+  have h2 : (env.code.getD s.pc 0).toNat - 0x8f = n := by omega
+  simp only [h0, h1, h3, and_self, if_true, if_false, h2, stepSwap, swapN]
+  cases hs : s.stack with
+  | nil => simp
+  | cons t r => cases hv : (t :: r)[n]? <;> simp
+
+/-- every other opcode goes through `stepOther` -/
+theorem step_other (env : Env) (s : St) (op : Nat) (hop : opAt env s = op)
+    (h : op < 0x5f ∨ 0x9f < op) : step env s = stepOther env s op := by
+  unfold opAt at hop
+  subst hop
+  unfold step
+  have h0 : ¬ (0x5f ≤ (env.code.getD s.pc 0).toNat ∧ (env.code.getD s.pc 0).toNat ≤ 0x7f) := by omega
+  have h1 : ¬ (0x80 ≤ (env.code.getD s.pc 0).toNat ∧ (env.code.getD s.pc 0).toNat ≤ 0x8f) := by omega
+  have h3 : ¬ (0x90 ≤ (env.code.getD s.pc 0).toNat ∧ (env.code.getD s.pc 0).toNat ≤ 0x9f) := by omega
+  simp only [h0, h1, h3, if_false]
+
+/-- PUSHn with the truncated-push rule spelled out: the pushed word is made of the next n code bytes, bytes past
+    the end of the code reading as zero. -/
+theorem step_push_matches_spec (env : Env) (s : St) (n : Nat) (hn : n ≤ 32) (hop : opAt env s = 0x5f + n)
+    (hlen : s.stack.length < 1024) :
+    step env s = .ok { s with
+      stack := bytesToWord ((List.range n).map (fun j => env.code.getD (s.pc + 1 + j) 0)) :: s.stack,
+      pc := s.pc + 1 + n } := by
+  rw [step_push env s n hn hop, pushImm_spec]
+  have : ¬ s.stack.length ≥ 1024 := by omega
+  simp [this]
+
+/-- CALLDATALOAD: pops the index and pushes the 32 bytes of call data from there, zero beyond the end (for any
+    index, including those ≥ 2^64); underflow on an empty stack. -/
+theorem step_calldataload_matches_spec (env : Env) (s : St) (hop : opAt env s = 0x35) :
+    step env s = match s.stack with
+      | idx :: rest => .ok { s with stack := calldataloadSpec env.calldata idx :: rest, pc := s.pc + 1 }
+      | [] => .error .stackUnderflow := by
+  rw [step_other env s 0x35 hop (by omega)]
+  show unop (calldataloadImpl env.calldata) s = _
+  unfold unop
+  cases s.stack with
+  | nil => rfl
+  | cons a r => simp [calldataload_impl_eq_spec]
+
+/-- The 26 arithmetic / comparison / bitwise opcodes: the step pops the operands (a = top of stack) and
+    pushes the result *the specification defines* (`xSpec`), advancing pc by one; underflow otherwise.
+    (`stepOther` is what `step` runs for these opcodes, `step_other`.) -/
+theorem step_word_ops_match_spec (env : Env) (s : St) :
+    stepOther env s 0x01 = binop addSpec s ∧
+    stepOther env s 0x02 = binop mulSpec s ∧
+    stepOther env s 0x03 = binop subSpec s ∧
+    stepOther env s 0x04 = binop divSpec s ∧
+    stepOther env s 0x05 = binop sdivSpec s ∧
+    stepOther env s 0x06 = binop modSpec s ∧
+    stepOther env s 0x07 = binop smodSpec s ∧
+    stepOther env s 0x08 = ternop addmodSpec s ∧
+    stepOther env s 0x09 = ternop mulmodSpec s ∧
+    stepOther env s 0x0a = binop expSpec s ∧
+    stepOther env s 0x0b = binop signextendSpec s ∧
+    stepOther env s 0x10 = binop ltSpec s ∧
+    stepOther env s 0x11 = binop gtSpec s ∧
+    stepOther env s 0x12 = binop sltSpec s ∧
+    stepOther env s 0x13 = binop sgtSpec s ∧
+    stepOther env s 0x14 = binop eqSpec s ∧
+    stepOther env s 0x15 = unop iszeroSpec s ∧
+    stepOther env s 0x16 = binop andSpec s ∧
+    stepOther env s 0x17 = binop orSpec s ∧
+    stepOther env s 0x18 = binop xorSpec s ∧
+    stepOther env s 0x19 = unop notSpec s ∧
+    stepOther env s 0x1a = binop byteSpec s ∧
+    stepOther env s 0x1b = binop shlSpec s ∧
+    stepOther env s 0x1c = binop shrSpec s ∧
+    stepOther env s 0x1d = binop sarSpec s ∧
+    stepOther env s 0x1e = unop clzSpec s := by
+  refine ⟨?_, ?_, ?_, ?_, ?_, ?_, ?_, ?_, ?_, ?_, ?_, ?_, ?_, ?_, ?_, ?_, ?_, ?_, ?_, ?_, ?_, ?_, ?_, ?_, ?_, ?_⟩
+  · show binop addImpl s = binop addSpec s
+    rw [show addImpl = addSpec from (funext fun a => funext fun b => add_impl_eq_spec a b)]
+  · show binop mulImpl s = binop mulSpec s
+    rw [show mulImpl = mulSpec from (funext fun a => funext fun b => mul_impl_eq_spec a b)]
+  · show binop subImpl s = binop subSpec s
+    rw [show subImpl = subSpec from (funext fun a => funext fun b => sub_impl_eq_spec a b)]
+  · show binop divImpl s = binop divSpec s
+    rw [show divImpl = divSpec from (funext fun a => funext fun b => div_impl_eq_spec a b)]
+  · show binop sdivImpl s = binop sdivSpec s
+    rw [show sdivImpl = sdivSpec from (funext fun a => funext fun b => sdiv_impl_eq_spec a b)]
+  · show binop modImpl s = binop modSpec s
+    rw [show modImpl = modSpec from (funext fun a => funext fun b => mod_impl_eq_spec a b)]
+  · show binop smodImpl s = binop smodSpec s
+    rw [show smodImpl = smodSpec from (funext fun a => funext fun b => smod_impl_eq_spec a b)]
+  · show ternop addmodImpl s = ternop addmodSpec s
+    rw [show addmodImpl = addmodSpec from (funext fun a => funext fun b => funext fun c => addmod_impl_eq_spec a b c)]
+  · show ternop mulmodImpl s = ternop mulmodSpec s
+    rw [show mulmodImpl = mulmodSpec from (funext fun a => funext fun b => funext fun c => mulmod_impl_eq_spec a b c)]
+  · show binop expImpl s = binop expSpec s
+    rw [show expImpl = expSpec from (funext fun a => funext fun b => exp_impl_eq_spec a b)]
+  · show binop signextendImpl s = binop signextendSpec s
+    rw [show signextendImpl = signextendSpec from (funext fun a => funext fun b => signextend_impl_eq_spec a b)]
+  · show binop ltImpl s = binop ltSpec s
+    rw [show ltImpl = ltSpec from (funext fun a => funext fun b => lt_impl_eq_spec a b)]
+  · show binop gtImpl s = binop gtSpec s
+    rw [show gtImpl = gtSpec from (funext fun a => funext fun b => gt_impl_eq_spec a b)]
+  · show binop sltImpl s = binop sltSpec s
+    rw [show sltImpl = sltSpec from (funext fun a => funext fun b => slt_impl_eq_spec a b)]
+  · show binop sgtImpl s = binop sgtSpec s
+    rw [show sgtImpl = sgtSpec from (funext fun a => funext fun b => sgt_impl_eq_spec a b)]
+  · show binop eqImpl s = binop eqSpec s
+    rw [show eqImpl = eqSpec from (funext fun a => funext fun b => eq_impl_eq_spec a b)]
+  · show unop iszeroImpl s = unop iszeroSpec s
+    rw [show iszeroImpl = iszeroSpec from (funext fun a => iszero_impl_eq_spec a)]
+  · show binop andImpl s = binop andSpec s
+    rw [show andImpl = andSpec from (funext fun a => funext fun b => and_impl_eq_spec a b)]
+  · show binop orImpl s = binop orSpec s
+    rw [show orImpl = orSpec from (funext fun a => funext fun b => or_impl_eq_spec a b)]
+  · show binop xorImpl s = binop xorSpec s
+    rw [show xorImpl = xorSpec from (funext fun a => funext fun b => xor_impl_eq_spec a b)]
+  · show unop notImpl s = unop notSpec s
+    rw [show notImpl = notSpec from (funext fun a => not_impl_eq_spec a)]
+  · show binop byteImpl s = binop byteSpec s
+    rw [show byteImpl = byteSpec from (funext fun a => funext fun b => byte_impl_eq_spec a b)]
+  · show binop shlImpl s = binop shlSpec s
+    rw [show shlImpl = shlSpec from (funext fun a => funext fun b => shl_impl_eq_spec a b)]
+  · show binop shrImpl s = binop shrSpec s
+    rw [show shrImpl = shrSpec from (funext fun a => funext fun b => shr_impl_eq_spec a b)]
+  · show binop sarImpl s = binop sarSpec s
+    rw [show sarImpl = sarSpec from (funext fun a => funext fun b => sar_impl_eq_spec a b)]
+  · show unop clzImpl s = unop clzSpec s
+    rw [show clzImpl = clzSpec from (funext fun a => clz_impl_eq_spec a)]
+
+/-- RETURNDATACOPY (EIP-211): if start + size exceeds the length of the return data the instruction fails
+    (whatever the memory arguments are); the failure class is "illegal memory access". -/
+theorem step_returndatacopy_out_of_bounds (env : Env) (s : St) (memIdx inIdx size : W) (rest : List W)
+    (hst : s.stack = memIdx :: inIdx :: size :: rest)
+    (hoob : inIdx.toNat + size.toNat > s.returnData.size) :
+    stepOther env s 0x3e = .error .illegalMemoryAccess := by
+  show (match s.stack with
+    | memIdx :: inIdx :: size :: rest => _
+    | _ => _) = _
+  rw [hst]
+  simp only []
+  rcases memRegion_cases s.memory memIdx size with h | ⟨hz, h⟩ | ⟨hnz, m', h⟩
+  · rw [h]
+  · rw [h]; simp only []
+    by_cases h64 : inIdx.toNat ≥ 2 ^ 64
+    · simp [h64]
+    · have : inIdx.toNat > s.returnData.size := by omega
+      simp [h64, this]
+  · rw [h]; simp only []
+    by_cases h64 : inIdx.toNat ≥ 2 ^ 64
+    · simp [h64]
+    · by_cases h2 : inIdx.toNat > s.returnData.size
+      · simp [h64, h2]
+      · simp [h64, h2, hoob]
+
+/-- MSTORE, stack / pc / failure part only (`_partial`: the memory *content* after the store is validated by
+    the correspondence runs, not proved): with `idx :: v :: rest` on the stack it fails with "illegal memory
+    access" exactly when idx + 32 exceeds u32::MAX, otherwise pops both, advances pc, leaves storage, transient
+    storage and return data alone, and the memory is the 32-byte store into the memory grown to idx + 32. -/
+theorem step_mstore_partial (env : Env) (s : St) (idx v : W) (rest : List W)
+    (hst : s.stack = idx :: v :: rest) :
+    (idx.toNat + 32 > u32Max ∧ stepOther env s 0x52 = .error .illegalMemoryAccess) ∨
+    (idx.toNat + 32 ≤ u32Max ∧ stepOther env s 0x52 = .ok { s with
+        stack := rest, pc := s.pc + 1,
+        memory := writeBytes (memGrow s.memory (idx.toNat + 32)) idx.toNat (wordToBytes v) }) := by
+  have hstep : stepOther env s 0x52 = (match s.stack with
+    | idx :: v :: rest =>
+      match memRegion s.memory idx 32#256 with
+      | .error e => .error e
+      | .ok (m, none) => .ok { s with stack := rest, memory := m, pc := s.pc + 1 }
+      | .ok (m, some (o, _)) =>
+        .ok { s with stack := rest, memory := writeBytes m o (wordToBytes v), pc := s.pc + 1 }
+    | _ => .error .stackUnderflow) := rfl
+  rw [hstep, hst]
+  simp only []
+  rcases memRegion32 s.memory idx with ⟨h, e⟩ | ⟨h, e⟩
+  · left; rw [e]; exact ⟨h, rfl⟩
+  · right; rw [e]; exact ⟨h, rfl⟩
+
+
+/-! ### non-vacuity: the definitions evaluate, on the corner cases the property names -/
+
+/- −2^255 ÷ −1 = −2^255; SAR of −16 by 4 = −1; SIGNEXTEND of byte 0x80; ADDMOD without wrap at 2^256;
+   3^(2^256−1) = 3⁻¹ mod 2^256. -/
+example : sdivImpl (BitVec.ofNat 256 (2 ^ 255)) (BitVec.allOnes 256) = BitVec.ofNat 256 (2 ^ 255) := by decide +kernel
+example : sarImpl 4#256 (BitVec.ofNat 256 (2 ^ 256 - 16)) = BitVec.allOnes 256 := by decide +kernel
+example : signextendImpl 0#256 0x80#256 = BitVec.ofNat 256 (2 ^ 256 - 128) := by decide +kernel
+example : addmodImpl (BitVec.allOnes 256) (BitVec.allOnes 256) 4#256 = 2#256 := by decide +kernel
+example : expImpl 3#256 (BitVec.allOnes 256) = BitVec.ofNat 256 0xaaaaaaaaaaaaaaaaaaaaaaaaaaaaaaaaaaaaaaaaaaaaaaaaaaaaaaaaaaaaaaab := by decide +kernel
+/-- PUSH1 1 PUSH1 2 ADD PUSH0 MSTORE PUSH1 32 PUSH0 RETURN returns the word 3 -/
+example : (exec #[0x60, 0x01, 0x60, 0x02, 0x01, 0x5f, 0x52, 0x60, 0x20, 0x5f, 0xf3] #[] (fun _ => none) [] 100).toOption.map
+    (fun r => (r.1, bytesToWord r.2.1.toList)) = some (.ret, 3#256) := by decide +kernel
+/-- a truncated PUSH4 at the end of the code: two bytes present, zero padded on the right -/
+example : pushImm #[0x63, 0xaa, 0xbb] 0 4 = 0xaabb0000#256 := by decide +kernel
+example : calldataloadImpl #[1, 2, 3] 1#256 = BitVec.ofNat 256 (0x0203 * 2 ^ 240) := by decide +kernel
 
 end BA.Evm
